@@ -19,6 +19,37 @@ EXPLANATION = (
 )
 
 
+SUP_RULES = ("SEED-", "IFT-domain", "IFT-extension", "IFT-pred", "IFT-order", "IFT-cost", "IFT-policy", "IFT-graph",
+             "IFT-update-sites", "PRIM-mark", "PRIM-key", "PRIM-domain", "PRIM-pred", "PRIM-policy", "PRIM-start",
+             "SCAN-")
+
+
+def check_supervised_premises(chk, rep, repo):
+    """Supervised clause: not decided on its own, but every rule of C01-C03 that the tie-free corollary
+    rests on is re-evaluated here as a premise (tie-only rules - strictness of the acceptance test, the
+    source of the propagated label - are left to C01, because on tie-free data they cannot change a label)."""
+    from ..core import Check
+    from ..common import competitions_of
+    from ..rules_ift import check_fmax_competition, check_prim, check_seeding
+    from . import c03
+    tmp = Check("C04")
+    trep = Rep(tmp, repo)
+    w, comps = competitions_of(repo, "SupervisedOPF", "fit", 2)
+    check_prim(trep, "", comps[0])
+    check_seeding(trep, "", comps[-1], repo)
+    check_fmax_competition(trep, "", comps[-1])
+    try:
+        c03.check(tmp, repo)
+    except Exception as exc:  # C03 reports its own analysis errors; here it is only a premise
+        tmp.ob("SCAN-analysis", "SupervisedOPF.predict", "C03 rule set", False, f"could not be evaluated: {exc}")
+    n = 0
+    for o in tmp.obligations:
+        if any(o.rule.startswith(p) or (":" in o.rule and o.rule.split(":", 1)[1].startswith(p)) for p in SUP_RULES):
+            n += 1
+            chk.ob("SUP:" + o.rule, o.function, o.construct, o.ok, o.detail, o.file, o.line)
+    chk.floor("premise obligations of the supervised clause (from C01-C03's rule sets)", n, 20)
+
+
 def check(chk, repo):
     chk.explanation = EXPLANATION
     rep = Rep(chk, repo)
@@ -43,6 +74,7 @@ def check(chk, repo):
         rep.ev("FORCE-dominates", u.event, acc is not None and acc[1] == "h<v",
                "the overridden candidate must be the value tested (strictly) against H.cost[q] and passed to update",
                construct="acceptance after label forcing for " + u.event.text())
+    check_supervised_premises(chk, rep, repo)
     # earlier (learning) clusterings are free not to force labels; nothing to check there
     try:
         from ..algebra import check_metric_premise
@@ -51,6 +83,7 @@ def check(chk, repo):
     if check_metric_premise is not None:
         check_metric_premise(rep, repo, "PREMISE-")
     chk.undecided += [
-        "supervised clause: tie-free data => own labels and predict(X_train) == Y_train (corollary of C01-C03)",
+        "supervised clause: tie-free data => own labels and predict(X_train) == Y_train is a corollary of C01-C03 plus "
+        "MST theory; only its premises (the label-relevant rules of C01-C03, prefixed SUP:) are re-evaluated here",
     ]
     chk.assumptions += ["initial costs are >= 0 > -FLOAT_MAX (C12 decides cost = density - 1 with density >= 1)"]
